@@ -72,7 +72,7 @@ func init() {
 				cse.TimeoutMS = 60000
 				cs = append(cs, cse)
 			}
-			nr := 8
+			nr := 12
 			if tier == "thorough" {
 				nr = 64
 			}
@@ -80,11 +80,11 @@ func init() {
 				rp := c04RoundsParams{C: pick(r, 2, 3, 8, 64), Rounds: 1500, Perturb: i%2 == 0}
 				if i%4 >= 2 {
 					// many ticks offering less than the number of idle workers between the rounds
-					rp.C, rp.Rounds, rp.Filler = pick(r, 8, 16, 64), 100, 300
+					rp.C, rp.Rounds, rp.Filler = pick(r, 8, 16, 64), 60, 1500
 				}
 				cse := core.MkCase("C04", "rounds", i, seed, rp)
 				cse.Race = i%4 == 3
-				cse.Procs = pick(r, 2, 4, 16)
+				cse.Procs = pick(r, 4, 16)
 				cse.TimeoutMS = 120000
 				cs = append(cs, cse)
 			}
